@@ -2,7 +2,7 @@
 # tools/validate_seed.sh <id>: confirm in a scratch worktree that seeded/<id>/patch.diff compiles,
 # passes the existing suite, and that the demonstration fails with it and passes without it.
 id=$1
-S=/verif/seeded/$id
+S=/verif/${SEEDDIR:-seeded}/$id
 export GOFLAGS=-mod=mod GOPROXY=off GOSUMDB=off GOTOOLCHAIN=local
 W=/tmp/seedval-$id
 git -C /repo worktree add -q $W HEAD || exit 2
